@@ -522,6 +522,12 @@ def run(ctx):
     nlong = 4000 if thorough else 200
     gcases = [longgen.f4_case("f4-drift", 1)]
     gcases += [longgen.gen_case(ctx.rng, "g%d" % i, 3000 if thorough else 1500) for i in range(nlong)]
+    for f in sorted(os.listdir(cdir)) if os.path.isdir(cdir) else []:
+        if f.endswith(".longline"):
+            ln = open(os.path.join(cdir, f)).read().split()
+            gcases.insert(0, dict(id="corpus-" + f, T="G", kind=ln[2], base=int(ln[3]), nodes=int(ln[4]), size=int(ln[5]),
+                                  maxfree=int(ln[6]), ops=ln[7:], profile="corpus", nops=len(ln) - 7,
+                                  line="corpus-%s %s" % (f, " ".join(ln[1:]))))
     gonly = [dict(longgen.f4_case("f4-panic", 70), _goonly=True)]        # 230k ops: Go only in the quick tier (the list-based model needs ~2 min)
     if thorough:
         gcases += gonly
@@ -749,7 +755,7 @@ def run(ctx):
         "evaluations": stats["ops"] + kstats["ops"] + gstats["ops"],
         "distinct_nontrivial": distinct,
         "rule": "distinct observation traces (every op returns a compared observation; final n,i,d dump on every case)",
-        "samples": [case_line(c)[:300] for c in cases[ncorpus:ncorpus + 2]] + [gcases[1]["line"][:300]] + [kcases[-1]["line"][:300]],
+        "samples": [case_line(c)[:300] for c in cases[ncorpus:ncorpus + 2]] + [gcases[-1]["line"][:300]] + [kcases[-1]["line"][:300]],
         "input_distribution": {k: stats[k] for k in ("cases", "corpus", "ops", "by_profile", "by_type", "opkinds", "panics")},
         "mismatches_model_vs_go": stats["mismatches"],
         "monitor_violations": stats["monitor_violations"],
